@@ -83,6 +83,18 @@ def problem(name, dtype):
     raise KeyError(name)
 
 
+def jacobian(name):
+    if name == "osc":
+        return lambda t, y: np.array([[0.0, 1.0], [-1.0, 0.0]], dtype=y.dtype)
+    if name == "decay":
+        return lambda t, y: -np.eye(len(y), dtype=y.dtype)
+    if name == "pend":
+        return lambda t, y: np.array([[0.0, 1.0], [-np.cos(y[0]), 0.0]], dtype=y.dtype)
+    if name == "rat":
+        return lambda t, y: np.diag(-2.0 * y)
+    raise KeyError(name)
+
+
 def make_event(spec, dtype):
     kind = spec["kind"]
     c = spec["c"]
@@ -139,8 +151,9 @@ def run(sc, detail_rhs=False, keep_system=False):
     y0 = np.array(sc["y0"], dtype=dt)
     y0_copy = y0.copy()
     with traced.session(detail_rhs=detail_rhs) as lg:
-        rhs = traced.WrappedRhs(f, lg)
+        rhs = traced.WrappedRhs(f, lg, jac=(jacobian(sc.get("problem", "osc")) if sc.get("userjac") else None))
         lg.fault_plan = traced.FaultPlan()
+        lg.rhs_budget = int(sc.get("budget", 400000))
         kw = {}
         if sc.get("rtol") is not None:
             kw["rtol"] = sc["rtol"]
@@ -168,17 +181,24 @@ def run(sc, detail_rhs=False, keep_system=False):
                     exc_t = op.get("exc", "ValueError")
                     fp.exc = KeyboardInterrupt("injected") if exc_t == "KeyboardInterrupt" else Injected("injected " + exc_t)
                 lg.emit("Api", op="integrate", k=k)
+                t_start = np.array(system.t[-1], copy=True)
+                t_goal = op.get("t") if op.get("t") is not None else system.tf
                 err = None
                 try:
                     system.integrate(t=op.get("t"), events=evs, callback=cbs)
                 except KeyboardInterrupt as e:
                     err = e
+                except traced.BudgetExceeded as e:
+                    err = e
+                    object.__setattr__(system, "_vf_depth", 0)
                 except Exception as e:
                     err = e
                 fp.k = None
                 lg.emit("ApiRet", op="integrate", k=k, err=_err_info(err), ncalls=fp.n, site=fp.fired_site,
-                        full=_full_state(system, y0_copy, y0))
+                        full=_full_state(system, y0_copy, y0), truth=_event_truth(op, t_start, t_goal, dt))
                 fp.fired_site = None
+                if isinstance(err, traced.BudgetExceeded):
+                    break
             elif name == "reset":
                 lg.emit("Api", op="reset", k=k)
                 system.reset()
@@ -202,6 +222,28 @@ def run(sc, detail_rhs=False, keep_system=False):
             else:
                 raise KeyError(name)
     return (lg, system) if keep_system else (lg, None)
+
+
+def _event_truth(op, t_start, t_goal, dt):
+    """Ground truth that the scenario definition gives for time events g = s*(t - c): the roots that lie in the
+    half-open span (t_start, t_goal] of this call, with their event index and terminal flag."""
+    out = []
+    a, b = num.frac(t_start), (num.frac(t_goal) if np.isfinite(float(t_goal)) else None)
+    for i, e in enumerate(op.get("events") or []):
+        if e["kind"] != "time":
+            continue
+        c = num.frac(np.asarray(e["c"], dtype=dt))
+        if b is None:
+            inside = (c > a) if float(t_goal) > 0 else (c < a)
+        else:
+            inside = (a < c <= b) or (b <= c < a)
+        if inside:
+            fwd = (float(t_goal) > float(t_start))
+            d = int(e.get("dir", 0))
+            # crossing direction is read along the direction of integration (what the library documents for forward runs)
+            out.append({"ev": i, "c": np.asarray(e["c"], dtype=dt), "term": bool(e.get("term")), "dir": d,
+                        "s": float(e.get("s", 1.0)), "dirOk": bool(d == 0 or ((d > 0) == ((float(e.get("s", 1.0)) > 0) == fwd)))})
+    return out
 
 
 def _err_info(e):
@@ -250,6 +292,11 @@ class Interner(object):
     def see(self, x):
         if x is None:
             return
+        try:
+            if not np.isfinite(float(x)):
+                return
+        except (TypeError, ValueError):
+            pass
         f = num.frac(x)
         self.vals.add(f)
         self.vals.add(abs(f))
@@ -293,6 +340,8 @@ def normalise(sc, lg):
         if s:
             it.see(s["tc"])
             it.see(s["dt"])
+        for x in e.get("truth", []) or []:
+            it.see(x["c"])
         fl = e.get("full")
         if fl:
             for x in fl["t"]:
@@ -344,7 +393,7 @@ def normalise(sc, lg):
             o["s"] = {"counter": int(s["counter"]), "buf": int(s["buf"]), "tc": it.r(s["tc"]), "yc": it.a(s["yc"]), "dt": it.r(s["dt"]),
                       "dtm": it.m(s["dt"]), "status": STATUS[s["status"]], "nsol": int(s["nsol"]), "nev": int(s["nev"]),
                       "nfev": int(s["nfev"]), "njev": int(s["njev"]), "rhsDone": int(s["rhsDone"]),
-                      "jacDone": int(s["jacDone"]), "depth": int(s["depth"])}
+                      "jacDone": int(s["jacDone"]), "jacReq": int(s["jacReq"]), "depth": int(s["depth"])}
         if n == "IntegrateCall":
             tgt = e["target"]
             fin = bool(np.isfinite(float(tgt)))
@@ -352,7 +401,7 @@ def normalise(sc, lg):
             tc = s["tc"]
             tdirs.append((num.sign(num.frac(tgt) - num.frac(tc)) if fin else (1 if float(tgt) > 0 else -1)))
             o.update(target=(it.r(tgt) if fin else 0), finite=fin, inf=(0 if fin else (1 if float(tgt) > 0 else -1)),
-                     depth=e["depth"], nevents=e["nevents"], ncb=e["ncb"],
+                     depth=e["depth"], nevents=e["nevents"], ncb=e["ncb"], term=list(e.get("term", [])),
                      dir=(num.sign(num.frac(tgt) - num.frac(tc)) if fin else (1 if float(tgt) > 0 else -1)),
                      # |target - t| < 4 eps : the call is a no-op
                      atTarget=bool(fin and abs(num.frac(tgt) - num.frac(tc)) < 4 * eps),
@@ -447,6 +496,10 @@ def normalise(sc, lg):
                      dtypeOk=(fl["dtype"] == str(dt) and fl["tdtype"] == str(dt)), finite=fl["finite"],
                      t0=it.r(fl["t0"]), tf=(it.r(fl["tf"]) if np.isfinite(float(fl["tf"])) else 0),
                      site=(e.get("site") or "none"), ncalls=int(e.get("ncalls", 0)),
+                     truthT=[it.r(x["c"]) for x in e.get("truth", [])], truthEv=[int(x["ev"]) for x in e.get("truth", [])],
+                     truthTerm=[bool(x["term"]) for x in e.get("truth", [])],
+                     truthGap=[num.gap_units(fl["t"][-1], x["c"], [x["c"]], dt) for x in e.get("truth", [])],
+                     truthDirOk=[bool(x["dirOk"]) for x in e.get("truth", [])],
                      lastEvUlps=(num.gap_units(fl["t"][-1], fl["events"][-1][0], [fl["events"][-1][0]], dt) if len(fl["events"]) else -1))
         elif n == "ResetRet":
             ev_hist.clear()
@@ -465,11 +518,19 @@ def run_plain(sc):
     """Execute the scenario on a plain de.OdeSystem.  Returns dict(t, y, ok, err, nfev, events, dt, status)."""
     dt = np.dtype(sc.get("dtype", "float64"))
     f0 = problem(sc.get("problem", "osc"), dt)
+    budget = int(sc.get("budget", 400000))
     if sc.get("reflect"):
-        def f(t, y):
+        def f1(t, y):
             return -f0(-t, y)
     else:
-        f = f0
+        f1 = f0
+
+    def f(t, y):
+        calls[0] += 1
+        if calls[0] > budget:
+            raise traced.BudgetExceeded("more than %d right-hand-side evaluations" % budget)
+        return f1(t, y)
+    calls = [0]
     y0 = np.array(sc["y0"], dtype=dt)
     kw = {}
     if sc.get("rtol") is not None:
@@ -479,7 +540,6 @@ def run_plain(sc):
     system = de.OdeSystem(f, y0, t=(sc["t0"], sc["tf"]), dt=sc["dt"], dense_output=bool(sc.get("dense", False)), **kw)
     system.method = method_class(sc["method"])
     err = None
-    calls = [0]
     for op in sc["ops"]:
         name = op["op"]
         try:
@@ -503,6 +563,9 @@ def run_plain(sc):
                     system.method = method_class(v)
                 elif w == "kick":
                     system.set_kick_vars(np.array(v, dtype=bool))
+        except traced.BudgetExceeded as e:
+            err = "BudgetExceeded"
+            break
         except Exception as e:  # noqa
             err = type(e).__name__
             break
